@@ -57,6 +57,8 @@ SPECS = [
     ("angle", {}), ("angle", {"onesite": True}),
     ("dihedral", {}), ("dihedral", {"onesite": True}),
     ("gyration", {}), ("rmsd", {}), ("rmsd", {"perm": True}), ("eigenvector", {"fit": "self"}), ("eigenvector", {"fit": "self", "normalize": True}),
+    # the vector given as a second structure (differenceVector): the projection is scaled so that this structure has value 1
+    ("eigenvector", {"fit": "self", "diffvec": True}),
 ]
 # order of the component variants inside a violation key (so that a trailing-* pattern can name the offending component)
 PRIORITY = ["eigenvector", "rmsd", "gyration", "angle", "dihedral", "distanceXY", "distanceZ", "distance"]
@@ -73,6 +75,8 @@ def variant(ctype, o):
         v += "/dummy"
     if o.get("normalize"):
         v = "normalized_" + v
+    if o.get("diffvec"):
+        v = "difference_" + v
     if o.get("perm"):
         v += "/perm"
     return v
@@ -87,6 +91,7 @@ def make_comp(rng, sysm, pool, ctype, o):
     oo = dict(o)
     onesite = oo.pop("onesite", False)
     normalize = oo.pop("normalize", False)
+    diffvec = oo.pop("diffvec", False)
     if ctype == "distance" and oo.get("dummy"):
         # corpus template marks dummy groups as unsupported; with oneSiteTotalForce they are documented to work
         c = corpus.COMPONENTS[ctype](rng, sysm, pool, {"dummy": True, "onesite": True})
@@ -100,6 +105,9 @@ def make_comp(rng, sysm, pool, ctype, o):
         if normalize:
             first, rest = c["text"].split("\n", 1)
             c["text"] = first + "\n    normalizeVector on\n" + rest
+        if diffvec:
+            first, rest = c["text"].split("\n", 1)
+            c["text"] = first + "\n    differenceVector on\n" + rest
     if ctype == "rmsd" and oo.get("perm"):
         # symmetry-adapted RMSD: the listed permutation (first two atoms exchanged) is the closest image, because the first two
         # reference positions are exchanged with respect to the current geometry
